@@ -83,6 +83,12 @@ func (ls *lockSched) hook(event string, m *vsync.Mutex) {
 	}
 	ch := make(chan struct{})
 	key := role + ":" + event
+	for n := 2; ; n++ { /* Two goroutines in one role (two keys typed): number them. */
+		if _, taken := ls.parked[key]; !taken {
+			break
+		}
+		key = fmt.Sprintf("%s#%d:%s", role, n, event)
+	}
 	ls.parked[key] = ch
 	ls.mu.Unlock()
 	<-ch
@@ -173,9 +179,32 @@ func c19LockRun(capPath, scenario string, prefix []int) (*lockRun, error) {
 	for _, op := range scenario {
 		switch op {
 		case 'K':
+			had := 0
+			for _, k := range ls.enabled() {
+				if strings.HasPrefix(k, "key") {
+					had++
+				}
+			}
 			ts.stdinW.Write([]byte{0x0F})
-			if !ls.waitRole("key:") {
-				return nil, fmt.Errorf("the Ctrl+O key never reached the handler")
+			if 0 == had {
+				if !ls.waitRole("key:") {
+					return nil, fmt.Errorf("the Ctrl+O key never reached the handler")
+				}
+				break
+			}
+			/* A further key while an earlier one is still being handled:
+			wait for its handler to show up; if it does not (the key is
+			held back somewhere), the liveness oracle below has the say. */
+			for deadline := time.Now().Add(2 * time.Second); time.Now().Before(deadline); time.Sleep(200 * time.Microsecond) {
+				now := 0
+				for _, k := range ls.enabled() {
+					if strings.HasPrefix(k, "key") {
+						now++
+					}
+				}
+				if now > had {
+					break
+				}
 			}
 		case 'I':
 			ts.stdinW.Write([]byte{0x09})
